@@ -115,6 +115,14 @@ pub fn gen_case(r: &mut Rng, out: &mut String) {
         }
     };
     for _ in 0..ncalls {
+        if r.chance(1, 7) {
+            // nth / nth_back (core's defaults today; `skip`, `step_by`, `rev().nth` go through them): short hops, hops over
+            // whole partitions, hops that overshoot everything that is left
+            let n = *r.pick(&[0u64, 0, 1, 2, 3, 5, 10, 40, 200, 1000, 5000, 70000, u64::MAX]);
+            writeln!(out, "{} j0 {}", if r.chance(1, 2) { "jnth" } else { "jnth_back" }, n).unwrap();
+            writeln!(out, "jsize_hint j0").unwrap();
+            continue;
+        }
         if borrowed {
             match r.below(14) {
                 0..=4 => writeln!(out, "jnext j0").unwrap(),
